@@ -200,7 +200,11 @@ class C13(SeqProp):
                     if kind == "measure":
                         call = lambda: seq.measure("ground-rydberg")  # noqa: E731
                         use_var = False
-                        refuse = "already-measured" if measured else None
+                        refuse = None
+                        if measured:
+                            refuse = "already-measured"
+                            if measured == "concrete" and param:
+                                refuse = "after-measurement:measured-before-first-variable"
                     elif measured and kind in ("enable", "disable", "add", "add_eom", "target", "delay"):
                         # after the measurement nothing may be added, whatever else would apply
                         refuse = "after-measurement" + (":measured-before-first-variable" if measured == "concrete" and (param or use_var) else "")
@@ -215,7 +219,7 @@ class C13(SeqProp):
                         ok = False
                         err = e
                     if refuse and ok:
-                        v.append(Violation("accepted-in-wrong-mode:" + refuse + (":parametrized" if param else ""),
+                        v.append(Violation("accepted-in-wrong-mode:" + refuse + (":parametrized" if param and "measured-before" not in refuse else ""),
                                            f"{kind} on {ch} accepted (mode: eom={eom}, parametrized={param})", case))
                     if not refuse and not ok:
                         v.append(Violation("refused-in-right-mode:" + kind + (":parametrized" if param else ""),
